@@ -228,8 +228,8 @@ func (v BoolValue) GetMethod(
 	return nil
 }
 
-var TrueStringValue = NewUnmeteredStringValue("true")
-var FalseStringValue = NewUnmeteredStringValue("false")
+const trueString = "true"
+const falseString = "false"
 
 var NativeBoolValueToStringFunction = NativeFunction(
 	func(
@@ -239,10 +239,15 @@ var NativeBoolValueToStringFunction = NativeFunction(
 		receiver Value,
 		_ []Value,
 	) Value {
+		// NOTE: return a new string value for each invocation, do NOT share one string value:
+		// string values are stateful (they cache their length once it got computed and metered,
+		// and keep the state of the grapheme iteration), so a shared value makes the metering of
+		// e.g. `true.toString().length` depend on previous executions in the process,
+		// and is mutated from different goroutines when programs are executed concurrently.
 		if AssertValueOfType[BoolValue](receiver) {
-			return TrueStringValue
+			return NewUnmeteredStringValue(trueString)
 		}
-		return FalseStringValue
+		return NewUnmeteredStringValue(falseString)
 	},
 )
 
